@@ -117,6 +117,9 @@ def build(chk):
     # 'first offset pinned, remaining offsets and all widths minimised': the box of that minimisation is the configured, two-sided one (shared with C09)
     from .C09_pressure import c_minimiser_bounds
     c_minimiser_bounds(chk, run_tail=True)
+    # 'grid centre and thickness from the envelope of all walls' (shared with C09)
+    from .C09_pressure import c_updateGrid
+    c_updateGrid(chk)
 
 
 def c_profile(chk):
